@@ -8,7 +8,7 @@
 (* (sorted key set, quota) case, and the invariants quantify over every    *)
 (* probe key.                                                              *)
 (***************************************************************************)
-EXTENDS Integers, Sequences, FiniteSets, TLC, Json
+EXTENDS Integers, Sequences, FiniteSets, TLC, Json, SequencesExt
 
 CONSTANTS Letters,      \* e.g. {1, 2}
           MaxLen,       \* keys are sequences over Letters of length 0..MaxLen
@@ -107,7 +107,8 @@ FindStartPos(key) ==
 RefPos(key) == IF \E p \in 1..N : ks[p] = key THEN (CHOOSE p \in 1..N : ks[p] = key) - 1 ELSE -1
 RefStart(key) == Cardinality({p \in 1..N : Less(ks[p], key)})
 
-KeySeqs == {s \in UNION {[1..n -> AllKeys] : n \in 1..MaxKeys} : Sorted(s)}
+\* every non-empty set of at most MaxKeys keys, as the sorted sequence a segment holds
+KeySeqs == {SetToSortSeq(S, Less) : S \in {T \in SUBSET AllKeys : Cardinality(T) >= 1 /\ Cardinality(T) <= MaxKeys}}
 
 Init == ks \in KeySeqs /\ quota \in Quotas
 Next == UNCHANGED vars
